@@ -564,6 +564,33 @@ def parse_dump(text):
     while i < n:
         line = lines[i]
         m = _fn_re.match(line)
+        if m and m.group(1) == "const" and not line.endswith("{"):
+            # one-line constant: `const NAME: Ty = const VALUE;`
+            mc = re.match(r"^const (.*) = (const .*);$", line)
+            hdr = Function()
+            if mc:
+                _parse_header(hdr, mc.group(1) + " =")
+            if mc and hdr.ret_ty and "::{constant#" not in hdr.name:
+                fn = Function()
+                fn.kind = "const"
+                fn.name = hdr.name
+                fn.header = line
+                fn.ret_ty = hdr.ret_ty
+                fn.locals[0] = fn.ret_ty
+                try:
+                    fn.blocks[0] = ([("assign", ("local", 0), ("use", parse_operand(mc.group(2))))], ("return",))
+                    fn.nlines = 1
+                    fn.text_hash = hashlib.sha256(line.encode()).hexdigest()[:16]
+                    key = fn.name
+                    k = 1
+                    while key in funcs:
+                        k += 1
+                        key = "%s#%d" % (fn.name, k)
+                    funcs[key] = fn
+                except ParseError:
+                    pass
+            i += 1
+            continue
         if not m or not line.endswith("{"):
             i += 1
             continue
